@@ -60,6 +60,45 @@ pub const EXCLUDE_GROWTH_BY_INSERT_RESIZE_PAST_MAX_SIZE: bool = false;
 /// to the length of the collection at the subscription point.
 pub const EXCLUDE_OVERSIZED_INITIAL_SNAPSHOT: bool = true;
 
+/// Finding C14/silent-divergence (list, unserialisable element): a remote list subscriber silently
+/// skips an element whose serialisation fails, receives the following elements in its place and is
+/// told `InitialComplete` (the mpsc forwarder keeps sending after an item-specific send error).
+/// When `true`, no marked (unserialisable) elements are generated for append-only lists.
+pub const EXCLUDE_UNSERIALISABLE_LIST_ELEMENTS: bool = true;
+
+// ---------------------------------------------------------------------------------------------
+// Element type
+// ---------------------------------------------------------------------------------------------
+
+/// Element of every observed collection: a `u32` whose `Serialize` fails for marked values
+/// (`value % 100_000 >= BAD_BASE`). Unmarked values serialise exactly like a `u32`, so nothing
+/// changes for cases without marked elements. Marked elements only ever occur in the initial
+/// contents (`Case::bad_init`); they can be observed locally but cannot be transferred.
+#[derive(Clone, Copy, Debug, PartialEq, Eq, Hash, PartialOrd, Ord, Default)]
+pub struct El(pub u32);
+
+pub const BAD_BASE: u32 = 50_000;
+
+fn is_bad(v: u32) -> bool {
+    v % 100_000 >= BAD_BASE
+}
+
+impl Serialize for El {
+    fn serialize<S: serde::Serializer>(&self, ser: S) -> Result<S::Ok, S::Error> {
+        if is_bad(self.0) {
+            Err(<S::Error as serde::ser::Error>::custom(format!("element {} is marked unserialisable", self.0)))
+        } else {
+            ser.serialize_u32(self.0)
+        }
+    }
+}
+
+impl<'de> Deserialize<'de> for El {
+    fn deserialize<D: serde::Deserializer<'de>>(de: D) -> Result<Self, D::Error> {
+        u32::deserialize(de).map(El)
+    }
+}
+
 // ---------------------------------------------------------------------------------------------
 // Case
 // ---------------------------------------------------------------------------------------------
@@ -179,6 +218,10 @@ pub struct Case {
     /// Do not avoid snapshots larger than `max_size` (generated as `!EXCLUDE_OVERSIZED_INITIAL_SNAPSHOT`).
     #[serde(default)]
     pub allow_oversized_snapshot: bool,
+    /// Bit i set: initial element i is marked unserialisable (its `Serialize` fails), so the
+    /// initial value cannot be transferred to a remote subscriber while that element is present.
+    #[serde(default)]
+    pub bad_init: u8,
 }
 
 fn pause_code() -> BoxedStrategy<u8> {
@@ -258,8 +301,9 @@ pub fn strategy(tier: Tier) -> BoxedStrategy<Case> {
         any::<bool>(),
         0u8..=2,
         sched(true),
+        prop_oneof![5 => Just(0u8), 1 => (0u8..6).prop_map(|i| 1u8 << i), 1 => any::<u8>()],
     )
-        .prop_map(|(kind, init, steps, subs, end, fault, timeout, cfg, sched)| {
+        .prop_map(|(kind, init, steps, subs, end, fault, timeout, cfg, sched, bad_init)| {
             // Development knob: C14_INCLUDE_KNOWN=1 searches with the known triggers included.
             let include_known = std::env::var("C14_INCLUDE_KNOWN").is_ok();
             // Development knob: C14_ONLY_KIND=Vec|Deque|Map|Set|List restricts the collection kind.
@@ -271,9 +315,14 @@ pub fn strategy(tier: Tier) -> BoxedStrategy<Case> {
                 Some("List") => KindSel::List,
                 _ => kind,
             };
+            let mut bad_init = bad_init & ((1u16 << init) - 1) as u8;
+            if kind == KindSel::List && EXCLUDE_UNSERIALISABLE_LIST_ELEMENTS && !include_known {
+                bad_init = 0;
+            }
             Case {
                 kind,
                 init,
+                bad_init,
                 steps,
                 subs,
                 end,
@@ -363,21 +412,25 @@ trait Kind: Sized + Send + Sync + 'static {
     fn fold(state: &mut Snap, ev: &Self::Ev) -> Folded;
 }
 
-fn snap_vec(v: &Vec<u32>) -> Snap {
-    v.clone()
+#[allow(clippy::ptr_arg)]
+fn snap_vec(v: &Vec<El>) -> Snap {
+    v.iter().map(|e| e.0).collect()
 }
-fn snap_deque(v: &VecDeque<u32>) -> Snap {
-    v.iter().copied().collect()
+fn snap_deque(v: &VecDeque<El>) -> Snap {
+    v.iter().map(|e| e.0).collect()
 }
-fn snap_map(m: &HashMap<u32, u32>) -> Snap {
-    let mut v: Vec<u32> = m.iter().map(|(k, v)| k * 100_000 + v).collect();
+fn snap_map(m: &HashMap<u32, El>) -> Snap {
+    let mut v: Vec<u32> = m.iter().map(|(k, v)| k * 100_000 + v.0).collect();
     v.sort_unstable();
     v
 }
-fn snap_set(s: &HashSet<u32>) -> Snap {
-    let mut v: Vec<u32> = s.iter().copied().collect();
+fn snap_set(s: &HashSet<El>) -> Snap {
+    let mut v: Vec<u32> = s.iter().map(|e| e.0).collect();
     v.sort_unstable();
     v
+}
+fn els(v: Vec<u32>) -> Vec<El> {
+    v.into_iter().map(El).collect()
 }
 
 macro_rules! common_kind_fns {
@@ -427,13 +480,13 @@ struct VecK;
 
 impl Kind for VecK {
     const NAME: &'static str = "vec";
-    type Obs = ObservableVec<u32>;
-    type Sub = VecSubscription<u32>;
-    type Mir = MirroredVec<u32>;
-    type Ev = VecEvent<u32>;
+    type Obs = ObservableVec<El>;
+    type Sub = VecSubscription<El>;
+    type Mir = MirroredVec<El>;
+    type Ev = VecEvent<El>;
 
     fn new(init: Vec<u32>) -> Self::Obs {
-        ObservableVec::from(init)
+        ObservableVec::from(els(init))
     }
     fn snap(o: &Self::Obs) -> Snap {
         snap_vec(o)
@@ -441,12 +494,12 @@ impl Kind for VecK {
     fn apply(o: &mut Self::Obs, op: &Op, ctx: &mut Ctx) {
         let len = o.len();
         match op {
-            Op::Push(_) | Op::Entry(_) => o.push(ctx.next()),
+            Op::Push(_) | Op::Entry(_) => o.push(El(ctx.next())),
             Op::Pop(_) => {
                 o.pop();
             }
             Op::Insert(s) => {
-                let v = ctx.next();
+                let v = El(ctx.next());
                 if ctx.capped(len + 1) {
                     o.push(v)
                 } else {
@@ -455,14 +508,14 @@ impl Kind for VecK {
             }
             Op::Set(s) => {
                 if len > 0 {
-                    let v = ctx.next();
+                    let v = El(ctx.next());
                     *o.get_mut(*s as usize % len).unwrap() = v;
                 }
             }
             Op::Touch(s) => {
                 if len > 0 {
                     let r = o.get_mut(*s as usize % len).unwrap();
-                    let _x: u32 = *r;
+                    let _x: El = *r;
                 }
             }
             Op::Remove(s) => {
@@ -475,10 +528,10 @@ impl Kind for VecK {
                     o.swap_remove(*s as usize % len);
                 }
             }
-            Op::Fill => o.fill(ctx.next()),
+            Op::Fill => o.fill(El(ctx.next())),
             Op::Resize(n) => {
                 let new_len = *n as usize % 10;
-                let v = ctx.next();
+                let v = El(ctx.next());
                 if new_len > len && ctx.capped(new_len) {
                     o.push(v)
                 } else {
@@ -488,22 +541,22 @@ impl Kind for VecK {
             Op::Truncate(n) => o.truncate(*n as usize % (len + 2)),
             Op::Retain(m) => {
                 let m = *m as u32;
-                o.retain(|x| (x + m) % 3 != 0)
+                o.retain(|x| (x.0 + m) % 3 != 0)
             }
             Op::Clear => o.clear(),
             Op::Shrink => o.shrink_to_fit(),
             Op::Extend(n) => {
                 for _ in 0..(*n % 4 + 1) {
-                    o.push(ctx.next());
+                    o.push(El(ctx.next()));
                     ctx.hist.push(snap_vec(o));
                 }
             }
             Op::IterMut(mask) => {
-                let mut model: Vec<u32> = o.to_vec();
+                let mut model: Vec<u32> = snap_vec(o);
                 for (i, mut r) in o.iter_mut().enumerate() {
                     if (mask >> (i % 8)) & 1 == 1 {
                         let v = ctx.next();
-                        *r = v;
+                        *r = El(v);
                         model[i] = v;
                         ctx.hist.push(model.clone());
                     }
@@ -516,7 +569,7 @@ impl Kind for VecK {
 
     fn fold(st: &mut Snap, ev: &Self::Ev) -> Folded {
         match ev {
-            VecEvent::Push(v) => st.push(*v),
+            VecEvent::Push(v) => st.push(v.0),
             VecEvent::Pop => {
                 st.pop();
             }
@@ -524,13 +577,13 @@ impl Kind for VecK {
                 if *i > st.len() {
                     return Folded::Invalid(format!("Insert({i}) into {} elements", st.len()));
                 }
-                st.insert(*i, *v)
+                st.insert(*i, v.0)
             }
             VecEvent::Set(i, v) => {
                 if *i >= st.len() {
                     return Folded::Invalid(format!("Set({i}) with {} elements", st.len()));
                 }
-                st[*i] = *v
+                st[*i] = v.0
             }
             VecEvent::Remove(i) => {
                 if *i >= st.len() {
@@ -544,8 +597,8 @@ impl Kind for VecK {
                 }
                 st.swap_remove(*i);
             }
-            VecEvent::Fill(v) => st.iter_mut().for_each(|x| *x = *v),
-            VecEvent::Resize(l, v) => st.resize(*l, *v),
+            VecEvent::Fill(v) => st.iter_mut().for_each(|x| *x = v.0),
+            VecEvent::Resize(l, v) => st.resize(*l, v.0),
             VecEvent::Truncate(l) => st.truncate(*l),
             VecEvent::Retain(keep) => {
                 let mut pos = 0;
@@ -578,13 +631,13 @@ struct DequeK;
 
 impl Kind for DequeK {
     const NAME: &'static str = "vec_deque";
-    type Obs = ObservableVecDeque<u32>;
-    type Sub = VecDequeSubscription<u32>;
-    type Mir = MirroredVecDeque<u32>;
-    type Ev = VecDequeEvent<u32>;
+    type Obs = ObservableVecDeque<El>;
+    type Sub = VecDequeSubscription<El>;
+    type Mir = MirroredVecDeque<El>;
+    type Ev = VecDequeEvent<El>;
 
     fn new(init: Vec<u32>) -> Self::Obs {
-        ObservableVecDeque::from(VecDeque::from(init))
+        ObservableVecDeque::from(VecDeque::from(els(init)))
     }
     fn snap(o: &Self::Obs) -> Snap {
         snap_deque(o)
@@ -594,9 +647,9 @@ impl Kind for DequeK {
         match op {
             Op::Push(s) | Op::Entry(s) => {
                 if s & 1 == 0 {
-                    o.push_back(ctx.next())
+                    o.push_back(El(ctx.next()))
                 } else {
-                    o.push_front(ctx.next())
+                    o.push_front(El(ctx.next()))
                 }
             }
             Op::Pop(s) => {
@@ -607,7 +660,7 @@ impl Kind for DequeK {
                 }
             }
             Op::Insert(s) => {
-                let v = ctx.next();
+                let v = El(ctx.next());
                 if ctx.capped(len + 1) {
                     o.push_back(v)
                 } else {
@@ -616,14 +669,14 @@ impl Kind for DequeK {
             }
             Op::Set(s) => {
                 if len > 0 {
-                    let v = ctx.next();
+                    let v = El(ctx.next());
                     *o.get_mut(*s as usize % len).unwrap() = v;
                 }
             }
             Op::Touch(s) => {
                 if len > 0 {
                     let r = o.get_mut(*s as usize % len).unwrap();
-                    let _x: u32 = *r;
+                    let _x: El = *r;
                 }
             }
             Op::Remove(s) => {
@@ -641,13 +694,13 @@ impl Kind for DequeK {
             Op::Fill => {
                 // No fill on a deque: rewrite the first element.
                 if len > 0 {
-                    let v = ctx.next();
+                    let v = El(ctx.next());
                     *o.get_mut(0).unwrap() = v;
                 }
             }
             Op::Resize(n) => {
                 let new_len = *n as usize % 10;
-                let v = ctx.next();
+                let v = El(ctx.next());
                 if new_len > len && ctx.capped(new_len) {
                     o.push_back(v)
                 } else {
@@ -657,13 +710,13 @@ impl Kind for DequeK {
             Op::Truncate(n) => o.truncate(*n as usize % (len + 2)),
             Op::Retain(m) => {
                 let m = *m as u32;
-                o.retain(|x| (x + m) % 3 != 0)
+                o.retain(|x| (x.0 + m) % 3 != 0)
             }
             Op::Clear => o.clear(),
             Op::Shrink => o.shrink_to_fit(),
             Op::Extend(n) => {
                 for _ in 0..(*n % 4 + 1) {
-                    o.push_back(ctx.next());
+                    o.push_back(El(ctx.next()));
                     ctx.hist.push(snap_deque(o));
                 }
             }
@@ -672,7 +725,7 @@ impl Kind for DequeK {
                 for (i, mut r) in o.iter_mut().enumerate() {
                     if (mask >> (i % 8)) & 1 == 1 {
                         let v = ctx.next();
-                        *r = v;
+                        *r = El(v);
                         model[i] = v;
                         ctx.hist.push(model.clone());
                     }
@@ -685,8 +738,8 @@ impl Kind for DequeK {
 
     fn fold(st: &mut Snap, ev: &Self::Ev) -> Folded {
         match ev {
-            VecDequeEvent::PushBack(v) => st.push(*v),
-            VecDequeEvent::PushFront(v) => st.insert(0, *v),
+            VecDequeEvent::PushBack(v) => st.push(v.0),
+            VecDequeEvent::PushFront(v) => st.insert(0, v.0),
             VecDequeEvent::PopBack => {
                 st.pop();
             }
@@ -699,13 +752,13 @@ impl Kind for DequeK {
                 if *i > st.len() {
                     return Folded::Invalid(format!("Insert({i}) into {} elements", st.len()));
                 }
-                st.insert(*i, *v)
+                st.insert(*i, v.0)
             }
             VecDequeEvent::Set(i, v) => {
                 if *i >= st.len() {
                     return Folded::Invalid(format!("Set({i}) with {} elements", st.len()));
                 }
-                st[*i] = *v
+                st[*i] = v.0
             }
             VecDequeEvent::Remove(i) => {
                 if *i >= st.len() {
@@ -726,7 +779,7 @@ impl Kind for DequeK {
                 st.swap(0, *i);
                 st.remove(0);
             }
-            VecDequeEvent::Resize(l, v) => st.resize(*l, *v),
+            VecDequeEvent::Resize(l, v) => st.resize(*l, v.0),
             VecDequeEvent::Truncate(l) => st.truncate(*l),
             VecDequeEvent::Retain(keep) => {
                 let mut pos = 0;
@@ -768,13 +821,13 @@ fn snap_from_btree(m: &BTreeMap<u32, u32>) -> Snap {
 
 impl Kind for MapK {
     const NAME: &'static str = "hash_map";
-    type Obs = ObservableHashMap<u32, u32>;
-    type Sub = HashMapSubscription<u32, u32>;
-    type Mir = MirroredHashMap<u32, u32>;
-    type Ev = HashMapEvent<u32, u32>;
+    type Obs = ObservableHashMap<u32, El>;
+    type Sub = HashMapSubscription<u32, El>;
+    type Mir = MirroredHashMap<u32, El>;
+    type Ev = HashMapEvent<u32, El>;
 
     fn new(init: Vec<u32>) -> Self::Obs {
-        let hm: HashMap<u32, u32> = init.into_iter().enumerate().map(|(i, v)| (i as u32, v)).collect();
+        let hm: HashMap<u32, El> = init.into_iter().enumerate().map(|(i, v)| (i as u32, El(v))).collect();
         ObservableHashMap::from(hm)
     }
     fn snap(o: &Self::Obs) -> Snap {
@@ -783,34 +836,34 @@ impl Kind for MapK {
     fn apply(o: &mut Self::Obs, op: &Op, ctx: &mut Ctx) {
         match op {
             Op::Push(s) | Op::Insert(s) => {
-                o.insert(*s as u32 % MAP_KEYS, ctx.next());
+                o.insert(*s as u32 % MAP_KEYS, El(ctx.next()));
             }
             Op::Pop(s) | Op::Remove(s) | Op::SwapRemove(s) | Op::Truncate(s) | Op::Resize(s) => {
                 o.remove(&(*s as u32 % MAP_KEYS));
             }
             Op::Set(s) => {
-                let v = ctx.next();
+                let v = El(ctx.next());
                 if let Some(mut r) = o.get_mut(&(*s as u32 % MAP_KEYS)) {
                     *r = v;
                 }
             }
             Op::Touch(s) => {
                 if let Some(r) = o.get_mut(&(*s as u32 % MAP_KEYS)) {
-                    let _x: u32 = *r;
+                    let _x: El = *r;
                 }
             }
             Op::Entry(s) => {
-                let v = ctx.next();
+                let v = El(ctx.next());
                 let _r = o.entry(*s as u32 % MAP_KEYS).or_insert(v);
             }
             Op::Retain(m) => {
                 // One Remove event per removed entry, in iteration order: record every
                 // intermediate state from inside the predicate.
                 let m = *m as u32;
-                let mut model: BTreeMap<u32, u32> = o.iter().map(|(k, v)| (*k, *v)).collect();
+                let mut model: BTreeMap<u32, u32> = o.iter().map(|(k, v)| (*k, v.0)).collect();
                 let hist = &mut ctx.hist;
                 o.retain(|k, v| {
-                    let keep = (*v + m) % 3 != 0;
+                    let keep = (v.0 + m) % 3 != 0;
                     if !keep {
                         model.remove(k);
                         hist.push(snap_from_btree(&model));
@@ -822,20 +875,20 @@ impl Kind for MapK {
             Op::Shrink | Op::Fill => o.shrink_to_fit(),
             Op::Extend(n) => {
                 for j in 0..(*n % 4 + 1) {
-                    o.insert((*n as u32 / 4 + j as u32) % MAP_KEYS, ctx.next());
+                    o.insert((*n as u32 / 4 + j as u32) % MAP_KEYS, El(ctx.next()));
                     ctx.hist.push(snap_map(o));
                 }
             }
             Op::IterMut(mask) => {
                 // Values are unique, so the written entry is identified by its old value.
-                let mut model: BTreeMap<u32, u32> = o.iter().map(|(k, v)| (*k, *v)).collect();
+                let mut model: BTreeMap<u32, u32> = o.iter().map(|(k, v)| (*k, v.0)).collect();
                 for mut r in o.iter_mut() {
-                    let old: u32 = *r;
+                    let old: u32 = r.0;
                     let key = model.iter().find(|(_, v)| **v == old).map(|(k, _)| *k);
                     if let Some(k) = key {
                         if (mask >> (k % 8)) & 1 == 1 {
                             let v = ctx.next();
-                            *r = v;
+                            *r = El(v);
                             model.insert(k, v);
                             ctx.hist.push(snap_from_btree(&model));
                         }
@@ -851,7 +904,7 @@ impl Kind for MapK {
         let mut m = map_from_snap(st);
         match ev {
             HashMapEvent::Set(k, v) => {
-                m.insert(*k, *v);
+                m.insert(*k, v.0);
             }
             HashMapEvent::Remove(k) => {
                 m.remove(k);
@@ -874,14 +927,16 @@ const SET_ELEMS: u32 = 12;
 
 impl Kind for SetK {
     const NAME: &'static str = "hash_set";
-    type Obs = ObservableHashSet<u32>;
-    type Sub = HashSetSubscription<u32>;
-    type Mir = MirroredHashSet<u32>;
-    type Ev = HashSetEvent<u32>;
+    type Obs = ObservableHashSet<El>;
+    type Sub = HashSetSubscription<El>;
+    type Mir = MirroredHashSet<El>;
+    type Ev = HashSetEvent<El>;
 
     fn new(init: Vec<u32>) -> Self::Obs {
-        // Elements of the small domain so that later inserts / removes hit them.
-        let hs: HashSet<u32> = (0..init.len() as u32).collect();
+        // Elements of the small domain so that later inserts / removes hit them (marked elements
+        // keep their mark).
+        let hs: HashSet<El> =
+            init.iter().enumerate().map(|(i, v)| El(if is_bad(*v) { BAD_BASE + i as u32 } else { i as u32 })).collect();
         ObservableHashSet::from(hs)
     }
     fn snap(o: &Self::Obs) -> Snap {
@@ -890,26 +945,26 @@ impl Kind for SetK {
     fn apply(o: &mut Self::Obs, op: &Op, ctx: &mut Ctx) {
         match op {
             Op::Push(s) | Op::Insert(s) | Op::Entry(s) => {
-                o.insert(*s as u32 % SET_ELEMS);
+                o.insert(El(*s as u32 % SET_ELEMS));
             }
             Op::Set(s) => {
-                o.replace(*s as u32 % SET_ELEMS);
+                o.replace(El(*s as u32 % SET_ELEMS));
             }
             Op::Pop(s) | Op::Remove(s) | Op::Truncate(s) | Op::Resize(s) => {
-                o.remove(&(*s as u32 % SET_ELEMS));
+                o.remove(&El(*s as u32 % SET_ELEMS));
             }
             Op::SwapRemove(s) => {
-                o.take(&(*s as u32 % SET_ELEMS));
+                o.take(&El(*s as u32 % SET_ELEMS));
             }
             Op::Touch(_) => {}
             Op::Retain(m) => {
                 let m = *m as u32;
-                let mut model: BTreeSet<u32> = o.iter().copied().collect();
+                let mut model: BTreeSet<u32> = o.iter().map(|e| e.0).collect();
                 let hist = &mut ctx.hist;
                 o.retain(|v| {
-                    let keep = (*v + m) % 3 != 0;
+                    let keep = (v.0 + m) % 3 != 0;
                     if !keep {
-                        model.remove(v);
+                        model.remove(&v.0);
                         hist.push(model.iter().copied().collect());
                     }
                     keep
@@ -919,7 +974,7 @@ impl Kind for SetK {
             Op::Shrink | Op::Fill | Op::IterMut(_) => o.shrink_to_fit(),
             Op::Extend(n) => {
                 for j in 0..(*n % 4 + 1) {
-                    o.insert((*n as u32 / 4 + j as u32) % SET_ELEMS);
+                    o.insert(El((*n as u32 / 4 + j as u32) % SET_ELEMS));
                     ctx.hist.push(snap_set(o));
                 }
             }
@@ -932,10 +987,10 @@ impl Kind for SetK {
         let mut s: BTreeSet<u32> = st.iter().copied().collect();
         match ev {
             HashSetEvent::Set(v) => {
-                s.insert(*v);
+                s.insert(v.0);
             }
             HashSetEvent::Remove(v) => {
-                s.remove(v);
+                s.remove(&v.0);
             }
             HashSetEvent::Clear => s.clear(),
             HashSetEvent::ShrinkToFit => {}
@@ -955,13 +1010,13 @@ impl Kind for ListK {
     const NAME: &'static str = "list";
     const IS_LIST: bool = true;
     /// The observable list and the model of its contents.
-    type Obs = (ObservableList<u32>, Vec<u32>);
-    type Sub = ListSubscription<u32>;
-    type Mir = MirroredList<u32>;
-    type Ev = ListEvent<u32>;
+    type Obs = (ObservableList<El>, Vec<u32>);
+    type Sub = ListSubscription<El>;
+    type Mir = MirroredList<El>;
+    type Ev = ListEvent<El>;
 
     fn new(init: Vec<u32>) -> Self::Obs {
-        (ObservableList::from(init.clone()), init)
+        (ObservableList::from(els(init.clone())), init)
     }
     fn snap(o: &Self::Obs) -> Snap {
         o.1.clone()
@@ -970,14 +1025,14 @@ impl Kind for ListK {
         match op {
             Op::Push(_) | Op::Insert(_) | Op::Set(_) | Op::Entry(_) | Op::Fill | Op::Resize(_) => {
                 let v = ctx.next();
-                o.0.push(v);
+                o.0.push(El(v));
                 o.1.push(v);
                 ctx.hist.push(o.1.clone());
             }
             Op::Extend(n) => {
                 for _ in 0..(*n % 4 + 1) {
                     let v = ctx.next();
-                    o.0.push(v);
+                    o.0.push(El(v));
                     o.1.push(v);
                     ctx.hist.push(o.1.clone());
                 }
@@ -1016,12 +1071,12 @@ impl Kind for ListK {
         })
     }
     fn detach(m: Self::Mir) -> BF<'static, Snap> {
-        Box::pin(async move { m.detach().await })
+        Box::pin(async move { snap_vec(&m.detach().await) })
     }
     fn fold(st: &mut Snap, ev: &Self::Ev) -> Folded {
         match ev {
             ListEvent::Push(v) => {
-                st.push(*v);
+                st.push(v.0);
                 Folded::Applied
             }
             ListEvent::Done => Folded::Done,
@@ -1402,7 +1457,8 @@ async fn execute<K: Kind>(case: &Case) -> RunOut {
         let case = case.clone();
         let sh = sh.clone();
         spawn_actor(async move {
-            let init: Vec<u32> = (0..case.init as u32).map(|i| 10 + i).collect();
+            let init: Vec<u32> =
+                (0..case.init as u32).map(|i| if i < 8 && (case.bad_init >> i) & 1 == 1 { BAD_BASE + 10 + i } else { 10 + i }).collect();
             let mut ctx = Ctx { fresh: 100, grow_cap: None, avoid_growth_bypass: !case.allow_growth_bypass, hist: Vec::new() };
             let mut obs = K::new(init);
             ctx.hist.push(K::snap(&obs));
@@ -1563,6 +1619,14 @@ fn judge<K: Kind>(case: &Case, hist: &[Snap], done_called: bool, sh: &Shared, ol
         if !log.subscribed {
             continue;
         }
+        // Marked (unserialisable) elements in the contents at the subscription point.
+        let bad_at_sub = hist[log.sub_point].iter().any(|x| is_bad(*x));
+        if !log.started && spec.remote && bad_at_sub && !(spec.incremental || K::IS_LIST) {
+            // The snapshot is part of the subscription, which therefore cannot be transferred at
+            // all: the sender of the subscription is told so, nothing reaches the subscriber.
+            classes.push("sub:unserialisable-snapshot".into());
+            continue;
+        }
         if !log.started {
             classes.push(if log.transfer_failed { "sub:transfer-failed".into() } else { "sub:never-arrived".into() });
             if !spec.remote || !any_fault {
@@ -1582,6 +1646,12 @@ fn judge<K: Kind>(case: &Case, hist: &[Snap], done_called: bool, sh: &Shared, ol
         let remote_fault = spec.remote && any_fault;
         let remote_old_fault = spec.remote && old_fault;
         let exceeds = |max: usize| (sp..hist.len()).any(|j| hist[j].len() > max);
+        // Gap B: the initial value of a remote incremental subscription contains an element whose
+        // serialisation fails; its transfer ends early. The subscriber must be told (Closed or a
+        // Remote* error) and must never be shown a complete initial value.
+        let unsendable = spec.remote && incremental && bad_at_sub;
+        // ... and that must have happened by quiescence (unless a transport fault is too recent).
+        let unsendable_due = unsendable && (!remote_fault || remote_old_fault);
 
         // Legitimacy of an error kind ("the corresponding error").
         let check_error = |e: &EK, lagged_before: bool, fail: &mut dyn FnMut(&str, String)| match e {
@@ -1596,7 +1666,7 @@ fn judge<K: Kind>(case: &Case, hist: &[Snap], done_called: bool, sh: &Shared, ol
                 }
             }
             EK::Closed => {
-                let legit = case.end == End::Drop || (lagged_before && case.end == End::DoneDrop) || remote_fault;
+                let legit = case.end == End::Drop || (lagged_before && case.end == End::DoneDrop) || remote_fault || unsendable;
                 if !legit {
                     fail("C14/spurious-closed", format!("{who}: Closed although the collection was not dropped before done (end {:?})", case.end));
                 }
@@ -1614,7 +1684,7 @@ fn judge<K: Kind>(case: &Case, hist: &[Snap], done_called: bool, sh: &Shared, ol
                 format!("{who}: InvalidIndex({i}): an event of an unbroken event stream did not apply, the contents had diverged silently"),
             ),
             EK::Remote(s) => {
-                if !remote_fault {
+                if !remote_fault && !unsendable {
                     fail("C14/spurious-remote-error", format!("{who}: {s} on a healthy connection / local subscription"));
                 }
             }
@@ -1677,7 +1747,14 @@ fn judge<K: Kind>(case: &Case, hist: &[Snap], done_called: bool, sh: &Shared, ol
                                     break;
                                 }
                             }
-                            if *fin {
+                            if *fin && unsendable_due {
+                                fail(
+                                    "C14/initial-loss-not-reported",
+                                    format!("{who}: the initial value {:?} contains an element that could not be transferred, yet at quiescence the mirror reports Ok({:?}, complete={}) instead of an error", hist[sp], view.snap, view.complete),
+                                );
+                                break;
+                            }
+                            if *fin && !unsendable {
                                 // Quiescence: everything that was sent has arrived.
                                 if case.end == End::Drop || remote_old_fault && !view.done {
                                     fail(
@@ -1726,7 +1803,7 @@ fn judge<K: Kind>(case: &Case, hist: &[Snap], done_called: bool, sh: &Shared, ol
                                     format!("{who}: after {e:?} detach() yields {d:?}, not a state of the collection at or after the last consistent observation (history index {idx}); history {:?}", &hist[sp..]),
                                 );
                             }
-                            if K::IS_LIST && *e == EK::Closed && !remote_fault && d != &fin_state {
+                            if K::IS_LIST && *e == EK::Closed && !remote_fault && !unsendable && d != &fin_state {
                                 fail("C14/list-element-lost", format!("{who}: list mirror ended with Closed holding {d:?}, the list contained {fin_state:?}"));
                             }
                         }
@@ -1738,6 +1815,10 @@ fn judge<K: Kind>(case: &Case, hist: &[Snap], done_called: bool, sh: &Shared, ol
                         let behind = log.detached.as_ref().is_some_and(|d| d != &fin_state);
                         if *e == EK::Lagged || (matches!(e, EK::Closed | EK::Remote(_)) && behind) {
                             nontrivial = true;
+                        }
+                        if unsendable && matches!(e, EK::Closed | EK::Remote(_)) {
+                            nontrivial = true;
+                            classes.push("initfail:mirror-reported".into());
                         }
                     }
                     None => classes.push(if last_ok.as_ref().is_some_and(|v| v.done) { format!("{loc}mirror:done") } else { format!("{loc}mirror:ok") }),
@@ -1773,7 +1854,7 @@ fn judge<K: Kind>(case: &Case, hist: &[Snap], done_called: bool, sh: &Shared, ol
                                 bad = true;
                                 continue;
                             }
-                            if K::IS_LIST && !fin_state.starts_with(state) {
+                            if K::IS_LIST && !unsendable && !fin_state.starts_with(state) {
                                 fail("C14/list-order", format!("{who}: after receive {ri} ({dbg}) the received elements are {state:?}, not a prefix of the list {fin_state:?}"));
                                 bad = true;
                                 continue;
@@ -1849,11 +1930,15 @@ fn judge<K: Kind>(case: &Case, hist: &[Snap], done_called: bool, sh: &Shared, ol
                                 nontrivial = true;
                             } else {
                                 terminal = Some(ek_name(e));
-                                if K::IS_LIST && *e == EK::Closed && !remote_fault && last_state != fin_state {
+                                if K::IS_LIST && *e == EK::Closed && !remote_fault && !unsendable && last_state != fin_state {
                                     fail("C14/list-element-lost", format!("{who}: list subscription ended with Closed after {last_state:?}, the list contained {fin_state:?}"));
                                 }
                                 if matches!(e, EK::Closed | EK::Remote(_)) && last_state != fin_state {
                                     nontrivial = true;
+                                }
+                                if unsendable && matches!(e, EK::Closed | EK::Remote(_)) {
+                                    nontrivial = true;
+                                    classes.push("initfail:events-reported".into());
                                 }
                             }
                         }
@@ -1868,7 +1953,14 @@ fn judge<K: Kind>(case: &Case, hist: &[Snap], done_called: bool, sh: &Shared, ol
                 if log.pending && !saw_done {
                     // Nothing more arrives at quiescence.
                     let legit = case.end == End::Keep || (case.end == End::Done && lagged);
-                    if remote_old_fault {
+                    if unsendable_due && !lagged {
+                        fail(
+                            "C14/initial-loss-not-reported",
+                            format!("{who}: the initial value {:?} contains an element that could not be transferred, yet recv() is still pending at quiescence without an error (complete={complete}) after {:?}", hist[sp], log.recvs.last()),
+                        );
+                    } else if unsendable {
+                        // Nothing further is demanded here.
+                    } else if remote_old_fault {
                         fail("C14/loss-not-reported", format!("{who}: recv() is still pending at quiescence although the connection failed"));
                     } else if !legit && !remote_fault {
                         fail(
@@ -1914,7 +2006,15 @@ pub fn run(case: &Case) -> Outcome {
     out.frames = res.frames;
     out.inconclusive = res.inconclusive;
     if let Some((s, m)) = res.fails.first() {
-        out.fail(s.clone(), m.clone());
+        // Divergence signatures carry the collection kind (and whether an unserialisable initial
+        // element was involved), so that a known finding keyed on one of them never hides another.
+        let sig = if s == "C14/silent-divergence" || s == "C14/initial-loss-not-reported" {
+            format!("{s}/{:?}{}", case.kind, if case.bad_init != 0 { "/unserialisable-element" } else { "" }).to_lowercase()
+                .replace("c14/", "C14/")
+        } else {
+            s.clone()
+        };
+        out.fail(sig, m.clone());
     }
     out.class(format!("kind:{:?}", case.kind));
     out.class(format!("end:{:?}", case.end));
@@ -1932,28 +2032,433 @@ pub fn run(case: &Case) -> Outcome {
     out
 }
 
-pub const RULE: &str = "cases = (collection kind vec/vec_deque/hash_map/hash_set/list, initial size 0-6, script of <=28 (thorough 40) mutations over the mutating API executed in bursts with generated pauses, 1-3 subscribers each with join point, local or through a simulated chmux connection, snapshot or incremental, event buffer 1-4 (sometimes 8/64), mirror with max_size ample or within -1..+4 of the size at the join point observed by borrow/borrow_and_update with guards held for generated times and finally detach, or event-wise recv at a generated pace folded by hand; end = done / done+drop / drop without done / kept alive; optional transport fault SinkError/StreamError/Eof/Stall after a generated frame; delivery schedule). oracle = recorded history of the observable's contents after every event: every Ok observation of a complete mirror (and every hand-folded state of an unlagged event stream) equals a history state at or after the subscription point, indices never decrease, is_done/Done only with the final contents, Ok never with more than max_size elements, an error is the corresponding one (Lagged only if more events than the buffer holds were emitted, never for lists; Closed only after a drop before done; MaxSizeExceeded only if the collection exceeded the limit; Remote* only after a transport fault; InvalidIndex never), errors are sticky, detach() after an error yields a history state not older than the last consistent observation, at quiescence (nothing in flight, no actor active) a mirror without error shows the final contents and a drop before done or a failed connection has been reported; list subscribers receive a prefix of the list in order and everything before Closed/Done. non-trivial = a subscriber actually received Lagged, or a Closed/Remote* error landed while its contents were behind the final contents, or a timer-paced list subscriber was observed at least 2 elements behind / received >= 4 results; distinct = distinct case hash";
+
+// ---------------------------------------------------------------------------------------------
+// Part "apply": events that do not apply to the mirror's contents (vec, vec_deque)
+// ---------------------------------------------------------------------------------------------
+//
+// A mirror may legitimately start from contents that differ from the observed collection: the
+// initial value of the subscription was taken with `take_initial()` (the mirror then starts empty)
+// or the first elements of an incremental initial value were consumed with `recv()` before
+// `mirror()` was called. From then on the documented semantics are "apply every event to the
+// mirror's contents"; an index-carrying event whose index is out of range for these contents does
+// not apply and must surface as `RecvError::InvalidIndex`, never be skipped.
+//
+// The events that the library emitted are recorded by a witness subscription (snapshot, ample
+// buffer) on the same observable; the model applies them with `Kind::fold`, whose applicability
+// rules are those of std: Vec/VecDeque::insert(i) needs i <= len; indexing, Vec::remove,
+// Vec::swap_remove need i < len; VecDeque::remove / swap_remove_back / swap_remove_front return
+// None for i >= len (the observable emits no event then, so such an event never applies); pop on
+// empty contents, truncate beyond the length, resize, fill, retain, clear always apply.
+
+/// Event buffer of the subscriptions of this part: never overflows.
+const A_BUFFER: usize = 4096;
+/// `max_size` of the mirror of this part: never reached.
+const A_MAX_SIZE: usize = 100_000;
+
+#[derive(Clone, Debug, Serialize, Deserialize, PartialEq, Eq, Hash)]
+pub enum StartA {
+    /// Snapshot subscription, `take_initial()` before `mirror()`: the mirror starts empty.
+    TakeInitial,
+    /// Incremental subscription with this many results of `recv()` consumed before `mirror()`
+    /// (capped at initial length + 1, the last one being `InitialComplete`).
+    Consumed(u8),
+}
+
+#[derive(Clone, Copy, Debug, Serialize, Deserialize, PartialEq, Eq, Hash)]
+pub enum EndA {
+    Done,
+    Keep,
+    Drop,
+}
+
+#[derive(Clone, Debug, Serialize, Deserialize, PartialEq, Eq, Hash)]
+pub struct CaseA {
+    pub deque: bool,
+    /// Initial number of elements.
+    pub init: u8,
+    pub start: StartA,
+    pub steps: Vec<Step>,
+    /// Bit (i % 32): the mirror is observed after step i.
+    pub looks: u32,
+    pub end: EndA,
+    pub sched: Sched,
+}
+
+fn op_strategy_a() -> BoxedStrategy<Op> {
+    prop_oneof![
+        4 => any::<u8>().prop_map(Op::Push),
+        2 => any::<u8>().prop_map(Op::Pop),
+        5 => any::<u8>().prop_map(Op::Insert),
+        5 => any::<u8>().prop_map(Op::Set),
+        4 => any::<u8>().prop_map(Op::Remove),
+        4 => any::<u8>().prop_map(Op::SwapRemove),
+        1 => Just(Op::Fill),
+        1 => any::<u8>().prop_map(Op::Resize),
+        1 => any::<u8>().prop_map(Op::Truncate),
+        1 => any::<u8>().prop_map(Op::Retain),
+        1 => Just(Op::Clear),
+        1 => any::<u8>().prop_map(Op::Extend),
+        1 => any::<u8>().prop_map(Op::IterMut),
+    ]
+    .boxed()
+}
+
+pub fn strategy_a(tier: Tier) -> BoxedStrategy<CaseA> {
+    let max_steps = tier.pick(16usize, 28usize);
+    (
+        any::<bool>(),
+        0u8..=6,
+        prop_oneof![2 => Just(StartA::TakeInitial), 1 => Just(StartA::Consumed(0)), 3 => Just(StartA::Consumed(1)), 3 => (2u8..=7).prop_map(StartA::Consumed)],
+        proptest::collection::vec((op_strategy_a(), pause_code()).prop_map(|(op, pause)| Step { op, pause }), 1..=max_steps),
+        any::<u32>(),
+        prop_oneof![2 => Just(EndA::Done), 1 => Just(EndA::Keep), 2 => Just(EndA::Drop)],
+        sched(false),
+    )
+        .prop_map(|(deque, init, start, steps, looks, end, sched)| {
+            // Development knob: C14_ONLY_KIND=Vec|Deque restricts the collection kind.
+            let deque = match std::env::var("C14_ONLY_KIND").ok().as_deref() {
+                Some("Vec") => false,
+                Some("Deque") => true,
+                _ => deque,
+            };
+            CaseA { deque, init, start, steps, looks, end, sched }
+        })
+        .boxed()
+}
+
+fn ev_name(dbg: &str) -> String {
+    dbg.split(|c: char| !c.is_alphanumeric()).next().unwrap_or("").to_string()
+}
+
+async fn execute_a<K: Kind>(case: &CaseA) -> RunOut {
+    let mut out = RunOut::default();
+    macro_rules! bail {
+        ($sig:expr, $($arg:tt)*) => {{
+            out.fails.push(($sig.to_string(), format!($($arg)*)));
+            return out;
+        }};
+    }
+    let init: Vec<u32> = (0..case.init as u32).map(|i| 10 + i).collect();
+    let mut ctx = Ctx { fresh: 100, grow_cap: None, avoid_growth_bypass: false, hist: Vec::new() };
+    let mut obs = K::new(init.clone());
+    ctx.hist.push(K::snap(&obs));
+
+    // Witness: records the events emitted by the observable.
+    let mut wit = K::subscribe(&obs, A_BUFFER, false);
+    match K::take_initial(&mut wit) {
+        Some(i) if i == init => {}
+        other => bail!("C14/silent-divergence", "{}: take_initial() of the witness yields {other:?}, the collection contains {init:?}", K::NAME),
+    }
+
+    // Subject: a mirror that starts from contents m0.
+    let m0: Snap;
+    let sub = match &case.start {
+        StartA::TakeInitial => {
+            let mut sub = K::subscribe(&obs, A_BUFFER, false);
+            match K::take_initial(&mut sub) {
+                Some(i) if i == init => {}
+                other => bail!("C14/silent-divergence", "{}: take_initial() yields {other:?}, the collection contains {init:?}", K::NAME),
+            }
+            m0 = Vec::new();
+            out.classes.push(if init.is_empty() { "a:start:in-sync".into() } else { "a:start:take-initial".into() });
+            sub
+        }
+        StartA::Consumed(k) => {
+            let mut sub = K::subscribe(&obs, A_BUFFER, true);
+            let k = (*k as usize).min(init.len() + 1);
+            let mut got: Snap = Vec::new();
+            for j in 0..k {
+                match sim::within(CALL_S, K::recv(&mut sub)).await {
+                    Err(()) => bail!("C14/call-hangs", "{}: recv() of initial element {j} of {} did not return", K::NAME, init.len()),
+                    Ok(Ok(Some(ev))) => match K::fold(&mut got, &ev) {
+                        Folded::Applied if j < init.len() && got[..] == init[..=j] => {}
+                        Folded::Complete if j == init.len() => {}
+                        _ => bail!("C14/silent-divergence", "{}: result {j} of the incremental initial value {init:?} is {ev:?}", K::NAME),
+                    },
+                    Ok(other) => bail!("C14/silent-divergence", "{}: result {j} of the incremental initial value {init:?} is {other:?}", K::NAME),
+                }
+            }
+            m0 = init[k.min(init.len())..].to_vec();
+            let class = if m0 == init {
+                "a:start:in-sync"
+            } else if k > init.len() {
+                "a:start:consumed-all"
+            } else {
+                "a:start:consumed-part"
+            };
+            out.classes.push(class.to_string());
+            sub
+        }
+    };
+    let mir = K::mirror(sub, A_MAX_SIZE);
+
+    // Mutations, with observations of the mirror in between.
+    let mut looks: Vec<Ob> = Vec::new();
+    for (i, step) in case.steps.iter().enumerate() {
+        K::apply(&mut obs, &step.op, &mut ctx);
+        pause(step.pause).await;
+        if (case.looks >> (i % 32)) & 1 == 1 {
+            match sim::within(CALL_S, K::borrow(&mir)).await {
+                Err(()) => bail!("C14/call-hangs", "{}: borrow() did not return", K::NAME),
+                Ok(Ok((view, _guard))) => looks.push(Ob::Ok { view, fin: false }),
+                Ok(Err(e)) => looks.push(Ob::Err { e: ek(&e), fin: false }),
+            }
+        }
+    }
+    let fin_state = K::snap(&obs);
+    match case.end {
+        EndA::Done => K::done(&mut obs),
+        EndA::Keep => {}
+        EndA::Drop => {}
+    }
+    let kept = if case.end == EndA::Drop {
+        drop(obs);
+        None
+    } else {
+        Some(obs)
+    };
+    // Everything is local: once all tasks are idle (the paused clock only advances then) every
+    // emitted event has been processed.
+    tokio::time::sleep(Duration::from_secs(10)).await;
+    sim::ticks(20).await;
+    tokio::time::sleep(Duration::from_secs(10)).await;
+
+    // The emitted events.
+    let mut events: Vec<K::Ev> = Vec::new();
+    let mut wit_state = init.clone();
+    let mut wit_done = false;
+    for _ in 0..(A_BUFFER + 8) {
+        match sim::within(DRAIN_S, K::recv(&mut wit)).await {
+            Err(()) => break,
+            Ok(Ok(Some(ev))) => {
+                match K::fold(&mut wit_state, &ev) {
+                    Folded::Applied => {}
+                    Folded::Done => {
+                        wit_done = true;
+                        break;
+                    }
+                    Folded::Complete => bail!("C14/silent-divergence", "{}: snapshot witness received InitialComplete", K::NAME),
+                    Folded::Invalid(msg) => bail!("C14/event-not-applicable", "{}: in-sync witness subscription received {ev:?}: {msg}", K::NAME),
+                }
+                events.push(ev);
+            }
+            Ok(Ok(None)) => break,
+            Ok(Err(e)) => {
+                if !(matches!(e, RecvError::Closed) && case.end == EndA::Drop) {
+                    bail!("C14/spurious-error", "{}: witness subscription (buffer {A_BUFFER}) received {e:?}, end {:?}", K::NAME, case.end);
+                }
+                break;
+            }
+        }
+    }
+    if wit_state != fin_state || wit_done != (case.end == EndA::Done) {
+        bail!(
+            "C14/silent-divergence",
+            "{}: folding the {} events received by an in-sync witness yields {wit_state:?} (done={wit_done}), the collection contains {fin_state:?} (end {:?})",
+            K::NAME,
+            events.len(),
+            case.end
+        );
+    }
+
+    // Model: apply every event to the mirror's contents.
+    let mut model = m0.clone();
+    let mut states: Vec<Snap> = vec![m0.clone()];
+    let mut invalid: Option<(usize, String, String)> = None;
+    let mut indexed_applied = 0usize;
+    for (n, ev) in events.iter().enumerate() {
+        let dbg = format!("{ev:?}");
+        match K::fold(&mut model, ev) {
+            Folded::Applied => {
+                if matches!(ev_name(&dbg).as_str(), "Insert" | "Set" | "Remove" | "SwapRemove" | "SwapRemoveBack" | "SwapRemoveFront") {
+                    indexed_applied += 1;
+                }
+                states.push(model.clone());
+            }
+            Folded::Invalid(msg) => {
+                invalid = Some((n, dbg, msg));
+                break;
+            }
+            Folded::Complete | Folded::Done => unreachable!(),
+        }
+    }
+    let last = states.last().unwrap().clone();
+    let who = format!("{} mirror started from {m0:?} while the collection contained {init:?} ({:?})", K::NAME, case.start);
+    let story = match &invalid {
+        Some((n, dbg, msg)) => format!("event {n} of {} ({dbg}) does not apply: {msg}; contents before it {last:?}", events.len()),
+        None => format!("all {} events apply, final contents {last:?}", events.len()),
+    };
+
+    // Final observations.
+    let mut obs_all = looks;
+    for _ in 0..2 {
+        match sim::within(CALL_S, K::borrow(&mir)).await {
+            Err(()) => bail!("C14/call-hangs", "{who}: borrow() did not return at quiescence"),
+            Ok(Ok((view, _guard))) => obs_all.push(Ob::Ok { view, fin: true }),
+            Ok(Err(e)) => obs_all.push(Ob::Err { e: ek(&e), fin: true }),
+        }
+    }
+    let detached = match sim::within(CALL_S, K::detach(mir)).await {
+        Ok(s) => s,
+        Err(()) => bail!("C14/call-hangs", "{who}: detach() did not return"),
+    };
+    drop(kept);
+
+    // Judgement.
+    let mut idx = 0usize;
+    let mut first_err: Option<EK> = None;
+    for (oi, ob) in obs_all.iter().enumerate() {
+        match ob {
+            Ob::Ok { view, fin } => {
+                if let Some(e) = &first_err {
+                    bail!("C14/error-not-sticky", "{who}: observation {oi} is Ok({:?}) after the mirror had reported {e:?}", view.snap);
+                }
+                if view.complete {
+                    match (idx..states.len()).find(|&j| states[j] == view.snap) {
+                        Some(j) => idx = j,
+                        None => bail!(
+                            "C14/apply-divergence",
+                            "{who}: observation {oi} is Ok({:?}), which is not among the contents obtained by applying the emitted events in order (from model state {idx}: {:?}); {story}; events {:?}",
+                            view.snap,
+                            &states[idx..],
+                            events
+                        ),
+                    }
+                }
+                if view.done && invalid.is_none() && (case.end != EndA::Done || view.snap != last) {
+                    bail!("C14/done-but-stale", "{who}: is_done() with {:?}; {story}", view.snap);
+                }
+                if *fin || view.done {
+                    if let Some((_, dbg, _)) = &invalid {
+                        bail!(
+                            "C14/invalid-index-missing",
+                            "{who}: the mirror reports Ok({:?}, done={}) after all events although {story}: {dbg} was skipped or applied differently instead of InvalidIndex; events {:?}",
+                            view.snap,
+                            view.done,
+                            events
+                        );
+                    }
+                    if case.end == EndA::Drop {
+                        bail!("C14/loss-not-reported", "{who}: Ok({:?}) at quiescence although the collection was dropped before done", view.snap);
+                    }
+                    if !view.complete || view.snap != last || view.done != (case.end == EndA::Done) {
+                        bail!(
+                            "C14/stale-silent",
+                            "{who}: at quiescence the mirror reports Ok({:?}, complete={}, done={}); {story}",
+                            view.snap,
+                            view.complete,
+                            view.done
+                        );
+                    }
+                }
+            }
+            Ob::Err { e, .. } => {
+                match &first_err {
+                    Some(f) if f != e => bail!("C14/error-not-sticky", "{who}: the mirror reported {f:?}, later {e:?}"),
+                    Some(_) => continue,
+                    None => {}
+                }
+                match (e, &invalid) {
+                    (EK::InvalidIndex(_), Some(_)) => {}
+                    (EK::InvalidIndex(i), None) => {
+                        bail!("C14/spurious-invalid-index", "{who}: InvalidIndex({i}) although {story}; events {:?}", events)
+                    }
+                    (EK::Closed, None) if case.end == EndA::Drop => {}
+                    (other, _) => bail!("C14/spurious-error", "{who}: the mirror reports {other:?}; {story}; end {:?}", case.end),
+                }
+                first_err = Some(e.clone());
+            }
+        }
+    }
+    match (&first_err, &invalid) {
+        (None, Some(_)) => unreachable!("final observations are Ok only without a non-applicable event"),
+        (Some(_), _) | (None, None) => {
+            // The last consistent contents stay retrievable: exactly the contents before the
+            // event that did not apply (or the final contents).
+            if detached != last {
+                bail!("C14/detach-inconsistent", "{who}: detach() yields {detached:?}; {story} (error {first_err:?})");
+            }
+        }
+    }
+    match &invalid {
+        Some((_, dbg, _)) => {
+            out.classes.push(format!("a:invalid:{}", ev_name(dbg)));
+            out.classes.push(format!("a:valid-prefix:{}", match states.len() - 1 { 0 => "0", 1..=3 => "1-3", _ => "4+" }));
+            out.nontrivial = true;
+        }
+        None => {
+            out.classes.push(if m0 == init { "a:all-applied:in-sync".into() } else { "a:all-applied:diverged-start".into() });
+            out.nontrivial = m0 != init && indexed_applied > 0;
+        }
+    }
+    out.classes.push(format!("a:end:{:?}", case.end));
+    out
+}
+
+pub fn run_a(case: &CaseA) -> Outcome {
+    let tape = case.sched.tape();
+    let res = if case.deque {
+        sim::run_sim(case.sched.tokio_seed, &tape, case.sched.defer, execute_a::<DequeK>(case))
+    } else {
+        sim::run_sim(case.sched.tokio_seed, &tape, case.sched.defer, execute_a::<VecK>(case))
+    };
+    let mut out = Outcome::default();
+    out.inconclusive = res.inconclusive;
+    if let Some((s, m)) = res.fails.first() {
+        out.fail(s.clone(), m.clone());
+    }
+    out.class(if case.deque { "a:kind:Deque" } else { "a:kind:Vec" });
+    for c in res.classes {
+        out.class(c);
+    }
+    out.nontrivial = res.nontrivial;
+    out
+}
+
+pub const RULE_A: &str = "part apply: cases = (vec or vec_deque with 0-6 initial elements; a local subscription whose initial value is removed with take_initial(), or an incremental subscription with 0..len+1 results consumed by recv(), before mirror(max_size ample) is called, so that the mirror starts from contents that differ from the collection; 1-16 (thorough 28) mutations biased towards index-carrying ones with generated pauses and borrow() observations in between; end = done / kept / dropped; schedule). oracle = the events emitted by the library (recorded by an in-sync witness subscription, whose fold must reproduce the collection) are applied in order to the mirror's start contents by the reference interpreter (std semantics: insert needs i <= len; set / remove / swap_remove* need i < len; pop on empty, truncate, resize, fill, retain, clear always apply): every complete Ok observation equals a model state, indices never decrease; at quiescence the mirror shows the model's final contents (done iff done()), or Closed after a drop; if an event does not apply to the model, the mirror must report InvalidIndex at quiescence and from the first error on, never another error, and detach() yields exactly the contents before that event; InvalidIndex never when all events apply. non-trivial = an emitted event did not apply to the model, or the mirror started from different contents and at least one index-carrying event applied";
+
+pub const RULE: &str = "cases = (collection kind vec/vec_deque/hash_map/hash_set/list, initial size 0-6, script of <=28 (thorough 40) mutations over the mutating API executed in bursts with generated pauses, 1-3 subscribers each with join point, local or through a simulated chmux connection, snapshot or incremental, event buffer 1-4 (sometimes 8/64), mirror with max_size ample or within -1..+4 of the size at the join point observed by borrow/borrow_and_update with guards held for generated times and finally detach, or event-wise recv at a generated pace folded by hand; end = done / done+drop / drop without done / kept alive; optional transport fault SinkError/StreamError/Eof/Stall after a generated frame; in 2 of 7 cases some initial elements are marked unserialisable (Serialize of the element fails), so the initial value of a remote incremental subscription taken while they are present cannot be transferred; delivery schedule). oracle = recorded history of the observable's contents after every event: every Ok observation of a complete mirror (and every hand-folded state of an unlagged event stream) equals a history state at or after the subscription point, indices never decrease, is_done/Done only with the final contents, Ok never with more than max_size elements, an error is the corresponding one (Lagged only if more events than the buffer holds were emitted, never for lists; Closed only after a drop before done; MaxSizeExceeded only if the collection exceeded the limit; Remote* only after a transport fault; InvalidIndex never), errors are sticky, detach() after an error yields a history state not older than the last consistent observation, at quiescence (nothing in flight, no actor active) a mirror without error shows the final contents and a drop before done or a failed connection has been reported; list subscribers receive a prefix of the list in order and everything before Closed/Done; a remote incremental subscriber whose initial value contains an unserialisable element never sees a complete initial value that is not a history state, may be told Closed or Remote*, and must have been told an error by quiescence. non-trivial = a subscriber actually received Lagged, or a Closed/Remote* error landed while its contents were behind the final contents, or a timer-paced list subscriber was observed at least 2 elements behind / received >= 4 results, or the untransferable initial value was reported as an error; distinct = distinct case hash";
 
 pub fn main(tier: Tier, seed: u64) -> Report {
     let mut rep = Report::new("C14", tier, seed);
-    rep.rule = RULE.into();
+    rep.rule = format!("{RULE}. {RULE_A}");
     rep.assumptions = vec![
         "single-threaded deterministic simulation; task-level interleavings only".into(),
         "quiescence = no frame in flight and no harness actor in a paced phase at two idle moments 100 virtual seconds apart; obligations to have reported a failed connection apply only to faults older than 400 virtual seconds".into(),
         "hash-based collections iterate in process-random order (retain, iter_mut, incremental initial value): intermediate states are recorded from inside the callbacks, so the oracle is exact, but replays of such cases may take a different path".into(),
         format!("generator exclusions: growth past max_size by insert/resize avoided = {EXCLUDE_GROWTH_BY_INSERT_RESIZE_PAST_MAX_SIZE} (finding C14/max-size-bypassed, D7); snapshot larger than max_size avoided = {EXCLUDE_OVERSIZED_INITIAL_SNAPSHOT}"),
         "mirror-of-mirror subscriptions (Mirrored*::subscribe) are exercised by C13 only".into(),
+        format!("unserialisable elements occur only in the initial contents; for lists excluded = {EXCLUDE_UNSERIALISABLE_LIST_ELEMENTS}"),
+        "part apply: pop on empty contents, truncate beyond the length, resize, fill, retain and clear are modelled as always applicable (std semantics), only index-carrying events can fail to apply".into(),
     ];
+    // Development knob: C14_ONLY_PART=robs|apply runs one generated part only.
+    let only = std::env::var("C14_ONLY_PART").ok();
     let regress: Vec<Case> = runner::load_regress::<Case>("C14", "robs").into_iter().map(|(_, c)| c).collect();
     if !regress.is_empty() {
         runner::run_cases(&mut rep, "regress-robs", regress, run);
     }
-    runner::run_generated(&mut rep, "robs", tier.pick(50_000, 2_000_000), || strategy(tier), run);
+    if only.as_deref() != Some("apply") {
+        runner::run_generated(&mut rep, "robs", tier.pick(50_000, 2_000_000), || strategy(tier), run);
+    }
+    if only.as_deref() == Some("robs") {
+        return rep;
+    }
+    let regress_a: Vec<CaseA> = runner::load_regress::<CaseA>("C14", "apply").into_iter().map(|(_, c)| c).collect();
+    if !regress_a.is_empty() {
+        runner::run_cases(&mut rep, "regress-apply", regress_a, run_a);
+    }
+    runner::run_generated(&mut rep, "apply", tier.pick(20_000, 1_000_000), || strategy_a(tier), run_a);
     rep
 }
 
-pub fn replay(_part: &str, case: serde_json::Value) -> (Option<runner::Failure>, u32, u32) {
+pub fn replay(part: &str, case: serde_json::Value) -> (Option<runner::Failure>, u32, u32) {
     let n = runner::replay_times(3);
+    if part == "apply" || part == "regress-apply" {
+        let c: CaseA = serde_json::from_value(case).expect("replay case does not parse as C14 apply case");
+        let (f, h) = runner::replay_case(&c, run_a, n);
+        return (f, h, n);
+    }
     let c: Case = serde_json::from_value(case).expect("replay case does not parse as C14 case");
     let (f, h) = runner::replay_case(&c, run, n);
     (f, h, n)
